@@ -314,3 +314,34 @@ def c05(ctx):
                   assumptions=["continuity demanded only below 0.25 urad arm sensitivity to the 0.125 um probing shift and when no "
                                "other IK branch is singular (the property's own precondition)",
                                "'J4 and J6 move by the same amount' is demanded for robots whose J4 and J6 sign corrections are equal"])
+
+
+# ----------------------------------------------------------------------------- C16
+@check("C16")
+def c16(ctx):
+    g = tlc(ctx, "Gen_Pgram", constants={"MaxDepth": 1 if ctx.quick else 2}, workers=8, xmx="12g")
+    lines = tlc_json_lines(g["out"], "pgram")
+    if not lines:
+        raise core.ToolError("Gen_Pgram printed nothing")
+    if not ctx.quick and len(lines) > 6000:
+        # depth-2 stacks: keep every depth <= 1 behaviour and a seeded sample of the depth-2 ones
+        import random
+        rnd = random.Random(ctx.seed)
+        deep = [ln for ln in lines if len(ln["layers"]) == 2]
+        lines = [ln for ln in lines if len(ln["layers"]) < 2] + rnd.sample(deep, 5000)
+    write_ndjson(ctx.path("pgram.ndjson"), lines)
+    opwv(ctx, ["replay", "pgram", ctx.path("pgram.ndjson"), ctx.path("pgram.out")])
+    st = replay_results(ctx, ctx.path("pgram.out"), "C16")
+    ctx.evaluations += st.get("evaluations", 0)
+    ctx.traces += len(lines)
+    for ln in lines:
+        if ln["layers"]:
+            ctx.nontrivial.add(json.dumps(ln["layers"]) + str(ln["e"]))
+    ev, viols = solver_trace(ctx, "C16", 6 if ctx.quick else 20)
+    solver_report(ctx, ev, viols, "C16")
+    return finish(ctx, rule="every coupling (driven != coupled, scaling in {-2,-1,-1/2,1/2,1,2}) that is exact on the lattice x 4 "
+                  "configurations (and stacks of two couplings in the thorough tier), with the exact link poses of the inner robot "
+                  "at the reduced vector computed by TLC (Gen_Pgram), replayed into forward / forward_with_joint_poses and the "
+                  "four inverse entry points (round trip); plus random real couplings (scaling in [-2,2]) behind and in front of "
+                  "tools as Solver trace events (clause Coupled)",
+                  assumptions=SOLVER_ASSUME)
